@@ -174,6 +174,7 @@ class Scheduler(object):
             return
         if nxt is me:
             return
+        self.current_run_len = 0
         self.switches.append((me.name, nxt.name, reason, site))
         self.current = nxt
         nxt.ev.set()
